@@ -26,6 +26,7 @@ import CtyModel.Props.C17Json
 import CtyModel.Lemmas.d17MsgpackNP
 import CtyModel.Lemmas.d17MsgpackAlloc
 import CtyModel.Lemmas.d17AllocSites
+import CtyModel.Lemmas.d17JsonDepth
 import CtyModel.Generated.Limits
 
 namespace CtyModel.C17
@@ -204,5 +205,65 @@ theorem msgpack_alloc_sites_are_source :
     Generated.decoderAllocSites.length = 14 :=
   ⟨D17Sites.no_raw_header_capacity, D17Sites.decoder_sites_listed.1, D17Sites.decoder_sites_listed.2.1,
    D17Sites.decoder_sites_listed.2.2.1, D17Sites.decoder_sites_listed.2.2.2.2⟩
+
+/-! ## `json.ImpliedType` and its nesting limit (/repo 0c63e6a)
+
+`D17.jsonImplied env max depth j` (CtyModel/d17JsonDepth.lean) is `impliedTypeForTok(tok, dec, depth)`
+with the test `depth >= maxImpliedTypeDepth` of the source; the correspondence harness diffs it,
+instantiated at the constant of the source, against /repo on every run (op `d17.jsonimplied`,
+documents nested 9999 … 10002 deep included).  The theorems of `Props/C17Json.lean` are about the
+limit-free `JsonVal.impliedType`; `json_implied_limit_only_adds_errors` carries them over. -/
+
+/-- `json.ImpliedType` as the code runs it: from depth 0, with the limit read from the source
+(`Generated/Limits.lean`, re-extracted from cty/json/type_implied.go on every check, together with
+the shape of the guard and the `depth+1` of the two recursive calls) -/
+def jsonImpliedType (env : JsonVal.JEnv) (j : Json) : Res Ty :=
+  jsonImpliedTop env Generated.jsonMaxImpliedTypeDepth j
+
+/-- The limit does nothing but turn outcomes into errors: with the limit the outcome is the one
+without it, or an error — at every depth, for every limit. -/
+theorem json_implied_limit_only_adds_errors (env : JsonVal.JEnv) (max d : Nat) (j : Json) :
+    jsonImplied env max d j = JsonVal.impliedType env j ∨ ∃ c, jsonImplied env max d j = .err c :=
+  jsonImplied_eq_or_err env max j d
+
+/-- … so `json.ImpliedType` with its limit never panics, on every token tree … -/
+theorem json_implied_limited_never_panics (env : JsonVal.JEnv) (j : Json) (w : String) :
+    jsonImpliedType env j ≠ .panic w := by
+  rcases jsonImplied_eq_or_err env Generated.jsonMaxImpliedTypeDepth j 0 with h | ⟨c, h⟩
+  · unfold jsonImpliedType jsonImpliedTop; rw [h]; exact json_implied_never_panics env j w
+  · unfold jsonImpliedType jsonImpliedTop; rw [h]; simp
+
+/-- … and a type it returns is well-formed, without optional-attribute annotation, with (for
+idempotent `norm`) normalised attribute names. -/
+theorem json_implied_limited_ok_wf (env : JsonVal.JEnv) (j : Json) (t : Ty) (h : jsonImpliedType env j = .ok t) :
+    Ty.wf t = true ∧ Ty.hasOpt t = false ∧
+    ((∀ s, env.norm (env.norm s) = env.norm s) → Ty.namesAll (C17Json.nfcOf env.norm) t = true) := by
+  unfold jsonImpliedType jsonImpliedTop at h
+  rcases jsonImplied_eq_or_err env Generated.jsonMaxImpliedTypeDepth j 0 with h' | ⟨c, h'⟩
+  · rw [h'] at h; exact json_implied_ok_wf env j t h
+  · rw [h'] at h; cases h
+
+/-- THE DEPTH BOUND: a document for which `json.ImpliedType` returns a type has arrays and objects
+nested at most `maxImpliedTypeDepth` (= 10000, the constant of the source) deep — so the recursion
+of `impliedTypeForTok` / `impliedObjectType` / `impliedTupleType`, one frame triple per level, is
+at most that deep on ANY document: -/
+theorem json_implied_nesting_bounded (env : JsonVal.JEnv) (j : Json) (t : Ty) (h : jsonImpliedType env j = .ok t) :
+    jnest j ≤ Generated.jsonMaxImpliedTypeDepth := by
+  have := jsonImplied_ok_nest env Generated.jsonMaxImpliedTypeDepth j 0 t h
+  omega
+
+/-- … at the limit an array or an object is answered with an error at once, before any member is
+looked at (no call at depth `max + 1` is ever made). -/
+theorem json_implied_stops_at_limit (env : JsonVal.JEnv) (max d : Nat) (hd : d ≥ max) (xs : List Json)
+    (ks : List String) (vs : List Json) :
+    (∃ c, jsonImplied env max d (.arr xs) = .err c) ∧ (∃ c, jsonImplied env max d (.obj ks vs) = .err c) := by
+  simp [jsonImplied, hd]
+
+/-- the limit is sharp, in the model as in the code (the harness runs 9999 … 10002 on both): with
+limit 3, three levels are a type and four are an error -/
+example :
+    (match jsonImpliedTop jenv0 3 (.arr [.arr [.obj ["a"] [.num "1"]]]) with | .ok t => t.equals (.tuple [.tuple [.object ["a"] [.number] [false]]]) | _ => false) = true ∧
+    (match jsonImpliedTop jenv0 3 (.arr [.arr [.obj ["a"] [.arr []]]]) with | .err _ => true | _ => false) = true ∧
+    jnest (.arr [.arr [.obj ["a"] [.arr []]]]) = 4 := by decide +kernel
 
 end CtyModel.C17
